@@ -79,6 +79,15 @@ nextPattern:
 				// cannot match abcexample.com
 			}
 		case consts.RoutingDomainKey_Keyword:
+			// Keywords are matched against "^name$": skip a keyword with a byte outside the
+			// host-name alphabet (like full/suffix patterns) or with one of the two anchors,
+			// instead of failing the whole build or matching by position.
+			for _, r := range []byte(d) {
+				if !ValidDomainChars.IsValidChar(r) || r == '^' || r == '$' {
+					n.log.Warnf("DomainMatcher: skip bad keyword domain: %v: unexpected char: %v", d, string(r))
+					continue nextPattern
+				}
+			}
 			// Only use ac automaton for "keyword" matching to save memory.
 			n.toBuildAc[bitIndex] = append(n.toBuildAc[bitIndex], []byte(d))
 		case consts.RoutingDomainKey_Regex:
